@@ -113,7 +113,7 @@ type Sched struct {
 
 func NewSched(log *Log, tape []int, fallback *RNG, shape string) *Sched {
 	return &Sched{Log: log, Tape: tape, Fallback: fallback, Shape: shape,
-		finished: make(chan error, 1), StepCap: 200000, holders: map[interface{}]*Task{}}
+		finished: make(chan error, 1), StepCap: 30000, holders: map[interface{}]*Task{}}
 }
 
 // Go registers a task. Bodies start when Run releases them.
